@@ -4421,7 +4421,9 @@ def unify_chunks(*args, **kwargs):
             chunks = tuple(
                 (
                     chunkss[j]
-                    if a.shape[n] > 1
+                    # an axis of length <= 1 is only collapsed to a single block
+                    # where it is broadcast against a longer one
+                    if a.shape[n] > 1 or a.shape[n] == sum(chunkss[j])
                     else a.shape[n] if not np.isnan(sum(chunkss[j])) else None
                 )
                 for n, j in enumerate(i)
